@@ -19,7 +19,7 @@ theorem raw_name_len_loop_eq (name : Bytes) (fuel i : Nat) :
     unfold Tr.Reader.raw_name_len_loop rawNameLenLoop
     cases hi : idx name i with
     | ok b =>
-      simp only [Res.bind_ok, hi, isPtr, Res.pure_eq]
+      simp only [Res.bind_ok, isPtr, Res.pure_eq]
       have := ih (i + b + 1)
       grind
     | err e => simp
@@ -120,17 +120,21 @@ theorem toLowerB_toNat (c : UInt8) : (toLowerB c).toNat = Tr.Reader.asciiLower c
   split
   · rename_i h
     have : c.toNat + 32 < 256 := by omega
-    simp [UInt8.toNat_ofNat', Nat.mod_eq_of_lt this]
+    simp [Nat.mod_eq_of_lt this]
   · rfl
+
+theorem u8_beq (x y : UInt8) : (x == y) = (x.toNat == y.toNat) := by
+  by_cases h : x = y
+  · subst h; simp
+  · have h2 : x.toNat ≠ y.toNat := fun e => h (UInt8.toNat_inj.1 e)
+    have a : (x == y) = false := by simpa using h
+    have b : (x.toNat == y.toNat) = false := by simpa using h2
+    rw [a, b]
 
 theorem eqIgnoreCase_eq (a b : UInt8) :
     eqIgnoreCase a b = (Tr.Reader.asciiLower a.toNat == Tr.Reader.asciiLower b.toNat) := by
   unfold eqIgnoreCase
-  rw [← toLowerB_toNat, ← toLowerB_toNat]
-  by_cases h : toLowerB a = toLowerB b
-  · simp [h]
-  · have : (toLowerB a).toNat ≠ (toLowerB b).toNat := fun e => h (UInt8.toNat_inj.1 e)
-    simp [h, this]
+  rw [u8_beq, toLowerB_toNat, toLowerB_toNat]
 
 theorem raw_names_eq_loop_eq (l1 l2 : Bytes) (n : Nat) :
     Tr.Reader.raw_names_eq_ignore_case_zip1 l1 l2 n = .ok (rawNamesEqLoop l1 l2 n) := by
@@ -141,11 +145,7 @@ theorem raw_names_eq_loop_eq (l1 l2 : Bytes) (n : Nat) :
     | nil => simp [Tr.Reader.raw_names_eq_ignore_case_zip1, rawNamesEqLoop]
     | cons c2 r2 =>
       unfold Tr.Reader.raw_names_eq_ignore_case_zip1 rawNamesEqLoop
-      have h0 : (c1 == 0) = (c1.toNat == 0) := by
-        by_cases h : c1 = 0
-        · subst h; rfl
-        · have : c1.toNat ≠ 0 := fun e => h (UInt8.toNat_inj.1 (by simpa using e))
-          simp [h, this]
+      have h0 : (c1 == 0) = (c1.toNat == 0) := u8_beq c1 0
       simp only [eqIgnoreCase_eq, h0, sub, bind_ite, Res.bind_ok, Res.bind_panic]
       have i1 := ih r2 c1.toNat
       have i2 := ih r2 (n - 1)
@@ -154,5 +154,15 @@ theorem raw_names_eq_loop_eq (l1 l2 : Bytes) (n : Nat) :
 theorem raw_names_eq_ignore_case_eq (n1 n2 : Bytes) :
     Tr.Reader.raw_names_eq_ignore_case n1 n2 = .ok (rawNamesEqIgnoreCase n1 n2) := by
   simp [Tr.Reader.raw_names_eq_ignore_case, rawNamesEqIgnoreCase, raw_names_eq_loop_eq]
+
+/-- all four equalities at once (restated in the theorem modules of C03, C05, C06, C07) -/
+theorem reader_tie (p pre n1 n2 : Bytes) (off : Nat) :
+    Tr.Reader.raw_name_len p = rawNameLen p ∧
+    Tr.Reader.raw_name_len_after_decompression p off = rawNameLenAfterDecompression p off ∧
+    Tr.Reader.copy_uncompressed_name pre p off
+      = (copyUncompressedName p off >>= fun r => Res.ok ((r.1.length, r.2), pre ++ r.1)) ∧
+    Tr.Reader.raw_names_eq_ignore_case n1 n2 = .ok (rawNamesEqIgnoreCase n1 n2) :=
+  ⟨raw_name_len_eq p, raw_name_len_after_decompression_eq p off, copy_uncompressed_name_eq p pre off,
+   raw_names_eq_ignore_case_eq n1 n2⟩
 
 end Dns.Tie
